@@ -134,8 +134,18 @@ class TalesExpr:
                     expression = remaining
                     remaining = ""
 
+                source = expression
                 expression = expression.replace('\\|', '|')
-                assignment = self.translate_proxy(engine, expression, target)
+                try:
+                    assignment = self.translate_proxy(
+                        engine, expression, target)
+                except ExpressionError as exc:
+                    if source == expression or \
+                            exc.token != expression.strip():
+                        raise
+                    # Report the text as it stands in the source
+                    # (with the pipe escapes).
+                    raise type(exc)(exc.args[0], source.strip())
             assignments.append(assignment)
 
         if not assignments:
